@@ -257,6 +257,10 @@ func randJSON(rng *rand.Rand, depth int) interface{} {
 		case 3:
 			return float64(rng.Intn(4000)-2000) / 8
 		case 4:
+			if rng.Intn(3) == 0 {
+				// integers beyond 64 bits (encoding/json writes them without exponent up to 1e21) and around the boundaries
+				return []interface{}{1e20, 18446744073709551616.0, -9.3e18, 1e19, uint64(math.MaxUint64), int64(math.MinInt64), -9223372036854777856.0}[rng.Intn(7)]
+			}
 			return uint64(math.MaxInt64) + uint64(rng.Intn(1000))
 		default:
 			return randJSONString(rng)
